@@ -1,7 +1,7 @@
 """C11 — output depends only on source, options and interpreter version.
 
 Four owned sources of nondeterminism, each enumerated exhaustively within its bound:
- 1 histories  explicit-state BFS over call sequences (14-call alphabet chosen to collide on everything shareable: reused preserve lists, a
+ 1 histories  explicit-state BFS over call sequences (16-call alphabet chosen to collide on everything shareable: reused preserve lists, a
               type-parameter program, an __all__ program, shared and default option objects, f-strings, name-exhausting programs, awslambda,
               calls that raise).  Every history runs in its own fresh process; state = digest of every mutable object reachable from
               python_minifier's module globals, class attributes and function defaults + the caller-owned argument objects.  Invariants on
@@ -30,8 +30,8 @@ RULE = ('states = distinct (state digest, argument objects) values reached by ca
         'argument object or follow a raising call, schedules with a real preemption, permutations other than the identity, seeds other than 0.')
 ASSUMPTIONS = ['the GIL: scheduling points are line/call events, not bytecodes', 'hash seeds are a bounded enumeration, backed by explicit control of set iteration order']
 WORKER = os.path.join(core.HERE, 'mc', 'c11_worker.py')
-CALL_NAMES = ['rename+L1', 'typeparam+L1', 'all+G1', 'rename+G1', 'typeparam+G1', 'ann+RA', 'ann-default', 'fstring', 'hoist', 'fold', 'awslambda',
-              'syntaxerror', 'midfail', 'rename+str']
+CALL_NAMES = ['rename+L1', 'typeparam+L1', 'all+G1', 'rename+G1', 'typeparam+G1', 'ann+RA', 'ann-default', 'fstring', 'hoist', 'hoist2', 'fold', 'fold2',
+              'awslambda', 'syntaxerror', 'midfail', 'rename+str']
 
 
 def env(seed='0'):
@@ -146,6 +146,9 @@ class ChoiceSet(set):
 
 
 SETORDER_PROGRAMS = [
+    "def setup():\n    global first_conn, second_conn, third_conn\n    first_conn = 1\n    second_conn = 2\n    third_conn = 3\ndef use():\n    return first_conn + second_conn + third_conn\nprint(setup(), use())\n",
+    "def reset():\n    global hits_count, miss_count\n    hits_count = miss_count = 0\ndef lookup(cache, key):\n    global hits_count, miss_count\n    if key in cache:\n        hits_count += 1\n        return cache[key]\n    miss_count += 1\nreset()\nprint(lookup({}, 1), hits_count, miss_count)\n",
+    "def outer():\n    def inner():\n        nonlocal aa_value, bb_value, cc_value\n        aa_value, bb_value, cc_value = cc_value, aa_value, bb_value\n    aa_value, bb_value, cc_value = 1, 2, 3\n    inner()\n    return aa_value, bb_value, cc_value\nprint(outer())\n",
     "def outer():\n    first_value = 1\n    second_value = 2\n    third_value = 3\n    def inner():\n        nonlocal first_value, second_value, third_value\n        first_value += second_value + third_value\n        return first_value + second_value + third_value\n    return inner()\nprint(outer())\n",
     "alpha_value = 1\nbeta_value = 2\ngamma_value = 3\ndef change():\n    global alpha_value, beta_value, gamma_value\n    alpha_value = beta_value + gamma_value\n    beta_value = alpha_value + gamma_value\n    return alpha_value + beta_value + gamma_value\nprint(change(), alpha_value, beta_value)\n",
     "def generic[FirstParam, SecondParam, *ThirdParam, **FourthParam](argument: FirstParam) -> SecondParam:\n    local_value = argument\n    return local_value or local_value\nclass Holder[KeyParam, ValueParam]:\n    pass\ntype Alias[ItemParam] = list[ItemParam]\nprint(generic(1))\n",
@@ -248,10 +251,22 @@ def check_schedules(tier, part, nparts, res):
             if n % nparts != part:
                 continue
             schedule = [(0, k), (1, None)]
-            results, pts = sched.Run(thread_bodies(idxs), schedule, gran).execute()
-            if pts[0] != npoints:
-                raise core.HarnessError('nondeterministic replay: thread %d passed %d points, %d in the baseline' % (idxs[0], pts[0], npoints))
-            verify(results, idxs, expected, res, {'gran': gran, 'threads': list(idxs), 'schedule': schedule}, True)
+            case = {'gran': gran, 'threads': list(idxs), 'schedule': schedule}
+            out = run_schedule(idxs, schedule, gran)
+            if out[0] == 'diverged' or out[2][0] != npoints:
+                # the preempted thread took a different path (or never finished) because another thread ran in between: replay the very same
+                # schedule; the same observation twice is interference between the threads, a different one is a harness problem
+                again = run_schedule(idxs, schedule, gran)
+                if again[0] != out[0] or (out[0] == 'ok' and again[2] != out[2]):
+                    raise core.HarnessError('nondeterministic replay of schedule %r: %r then %r' % (schedule, out[:1] + out[2:], again[:1] + again[2:]))
+                res.count('evaluations')
+                res.count('transitions')
+                res.count('distinct_nontrivial')
+                res.violation('thread-path-depends-on-schedule:program%d' % idxs[0], dict(case, kind='sched'),
+                              'threads %s schedule %s: the preempted thread %s (it passes %d scheduling points when run alone)' % (
+                                  list(idxs), schedule, 'never finished / deadlocked: ' + str(out[1]) if out[0] == 'diverged' else 'passed %d scheduling points' % out[2][0], npoints))
+                continue
+            verify(out[1], idxs, expected, res, case, True)
     if tier == 'thorough':
         # pairs of preemptions at call granularity, and three threads at bound 1
         for a, b in [(0, 1), (1, 2)]:
@@ -266,8 +281,11 @@ def check_schedules(tier, part, nparts, res):
                     if n % nparts != part:
                         continue
                     schedule = [(0, k1), (1, k2), (0, None), (1, None)]
-                    results, pts = sched.Run(thread_bodies(idxs), schedule, 'call').execute()
-                    verify(results, idxs, expected, res, {'gran': 'call', 'threads': list(idxs), 'schedule': schedule}, True)
+                    out = run_schedule(idxs, schedule, 'call')
+                    if out[0] == 'diverged':
+                        res.violation('thread-path-depends-on-schedule:program%d' % idxs[0], {'gran': 'call', 'threads': list(idxs), 'schedule': schedule, 'kind': 'sched'}, out[1])
+                        continue
+                    verify(out[1], idxs, expected, res, {'gran': 'call', 'threads': list(idxs), 'schedule': schedule}, True)
         idxs = (0, 1, 2)
         results, points = sched.Run(thread_bodies(idxs), [], 'line').execute()
         for k in range(1, points[0] + 1):
@@ -276,8 +294,20 @@ def check_schedules(tier, part, nparts, res):
                 if n % nparts != part:
                     continue
                 schedule = [(0, k), (order[0], None), (order[1], None)]
-                results, pts = sched.Run(thread_bodies(idxs), schedule, 'line').execute()
-                verify(results, idxs, expected, res, {'gran': 'line', 'threads': list(idxs), 'schedule': schedule}, True)
+                out = run_schedule(idxs, schedule, 'line')
+                if out[0] == 'diverged':
+                    res.violation('thread-path-depends-on-schedule:program%d' % idxs[0], {'gran': 'line', 'threads': list(idxs), 'schedule': schedule, 'kind': 'sched'}, out[1])
+                    continue
+                verify(out[1], idxs, expected, res, {'gran': 'line', 'threads': list(idxs), 'schedule': schedule}, True)
+
+
+def run_schedule(idxs, schedule, gran):
+    from mc import sched
+    try:
+        results, pts = sched.Run(thread_bodies(idxs), schedule, gran).execute()
+        return ('ok', results, pts)
+    except sched.Diverged as e:
+        return ('diverged', str(e), None)
 
 
 def verify(results, idxs, expected, res, case, preempted):
@@ -300,7 +330,7 @@ def verify(results, idxs, expected, res, case, preempted):
 
 # ---- tasks ---------------------------------------------------------------------------------------------------------------------------------------
 
-CORE_CALLS = ['rename+L1', 'typeparam+L1', 'all+G1', 'rename+G1', 'ann+RA', 'ann-default', 'midfail', 'hoist']
+CORE_CALLS = ['rename+L1', 'typeparam+L1', 'all+G1', 'ann+RA', 'midfail', 'hoist', 'hoist2', 'fold', 'fold2']
 
 
 def histories(depth, tier='thorough'):
@@ -376,8 +406,11 @@ def replay(case):
         from mc import sched
         import python_minifier
         expected = [python_minifier.minify(s, **kw) for s, kw in THREAD_PROGRAMS]
-        results, _ = sched.Run(thread_bodies(case['threads']), [tuple(x) for x in case['schedule']], case['gran']).execute()
-        verify(results, case['threads'], expected, res, case, True)
+        out = run_schedule(case['threads'], [tuple(x) for x in case['schedule']], case['gran'])
+        base = run_schedule(case['threads'], [], case['gran'])
+        if out[0] == 'diverged' or (base[0] == 'ok' and out[2][0] != base[2][0]):
+            return {'signature': 'thread-path-depends-on-schedule:program%d' % case['threads'][0], 'detail': repr(out[:1] + out[2:])}
+        verify(out[1], case['threads'], expected, res, case, True)
     elif 'seed' in case:
         return None
     for v in res.violations:
